@@ -31,6 +31,9 @@ type c11Case struct {
 	// Alphabet 1: the first two argument types are same-named types of two imported packages that share
 	// their package name (scratch/a/x.T, scratch/b/x.T) instead of the local A and B
 	Alphabet int
+	// Stale > 0: goderive first runs (same flags) over the package holding only the first Stale calls; the
+	// remaining calls are added afterwards and the run under test starts with that derived.gen.go in place
+	Stale    int
 	Reserved int // 3 / 4: like 1, but the occupied names are function-typed variables / types used in conversions. 0: nothing; 1: the user defines and calls functions named like the first would-be helpers (prefix_); 2: named exactly like the bare plugin prefixes
 	Conflict bool
 	Dup      bool
@@ -40,7 +43,7 @@ type c11Case struct {
 // prefix of the two-argument list [*A *A]
 // the 5th "type" is only known after a first generation pass: the arguments are results of deriveKeys
 var c11Types = []string{"*A", "*B", "*C", "*A", "[]string<-deriveKeys"}
-var c11Names = [][]string{{"deriveEqual", "deriveEqualX", "deriveEqual_"}, {"deriveHash", "deriveHashX", "deriveHash_"}}
+var c11Names = [][]string{{"deriveEqual", "deriveEqualXOfTwoThingsWithAVeryLongName", "deriveEqual_"}, {"deriveHash", "deriveHashXOfOneThingWithAVeryLongName", "deriveHash_"}}
 var c11NamesReserved = [][]string{{"deriveEqual", "deriveEqualX", "deriveEqualY"}, {"deriveHash", "deriveHashX", "deriveHashY"}}
 
 var c11NamesBare = [][]string{{"deriveEqualZ", "deriveEqualX", "deriveEqualY"}, {"deriveHashZ", "deriveHashX", "deriveHashY"}}
@@ -245,6 +248,12 @@ func c11Cases(c *Ctx) []c11Case {
 					}
 					cs.Name = fmt.Sprintf("c11-%05d", len(out))
 					out = append(out, cs)
+					if len(s) >= 2 && (si+fi+res)%3 == int(c.Seed%3) {
+						st := cs
+						st.Stale = len(s) - 1
+						st.Name = fmt.Sprintf("c11-%05d", len(out))
+						out = append(out, st)
+					}
 				}
 			}
 		}
@@ -257,7 +266,7 @@ func (cs *c11Case) desc() string {
 	for _, cl := range cs.Calls {
 		parts = append(parts, fmt.Sprintf("%s(%s)", cs.names()[cl.Plugin][cl.Name], cs.types()[cl.Type]))
 	}
-	return fmt.Sprintf("flags=%v reserved=%v calls=[%s]", cs.Flags, cs.Reserved, strings.Join(parts, " "))
+	return fmt.Sprintf("flags=%v reserved=%v stale=%d calls=[%s]", cs.Flags, cs.Reserved, cs.Stale, strings.Join(parts, " "))
 }
 
 // dupFuncs finds generated functions of one plugin with identical signatures.
@@ -314,6 +323,12 @@ func checkC11(c *Ctx) {
 	parallel(len(cases), 14, func(i int) {
 		cs := cases[i]
 		dir := c.Env.Dir(cs.Name)
+		if cs.Stale > 0 {
+			first := cs
+			first.Calls = cs.Calls[:cs.Stale]
+			grun.WriteTree(dir, first.tree())
+			c.Goderive(dir, append(append([]string{}, cs.Flags...), "./p"))
+		}
 		grun.WriteTree(dir, cs.tree())
 		g := c.Goderive(dir, append(append([]string{}, cs.Flags...), "./p"))
 		r := res{g: g, dir: dir}
@@ -342,6 +357,9 @@ func checkC11(c *Ctx) {
 		c.Run.Eval(1)
 		want := cs.expect()
 		class := fmt.Sprintf("flags=%s|conflict=%v|dup=%v|reserved=%d|alphabet=%d", strings.Join(cs.Flags, ""), cs.Conflict, cs.Dup, cs.Reserved, cs.Alphabet)
+		if cs.Stale > 0 {
+			class += "|stale-file"
+		}
 		viol := func(sym, detail string) {
 			c.Run.Violate(report.Violation{
 				Key: class + "|" + sym, Summary: cs.desc() + ": " + sym, Detail: detail,
